@@ -15,7 +15,9 @@ BUDGET = {'quick': 20000, 'thorough': 1000000}
 WALL = {'quick': 100, 'thorough': 1500}
 CHUNK = 60
 REQUIRED_PROBES = ['sweep_layouts', 'padded_block', 'extent_eq_procs', 'accessors_on_swapper_grid', 'kind_swapper', 'swapper_sets_in_another_order']
-RULE = ('15% of the cases: kind swapper = a LayoutSwapper with C03\'s random groupings listed in any order: bufferSize >= every layout, raw transposes and a Grid with arrays of exactly bufferSize elements along a walk, every accessor after every step; '
+RULE = ("Every check: in 12% of the cases one or two bystander ranks share the simulated job and the code under test runs on world.Split(...); one case in HASHSEED_EVERY is re-run in fresh interpreters under other string-hash seeds and every rank's trace (collectives, data sent, result) must agree. "
+        'Also: every accessor answer is asked for first and compared afterwards, getCoords iterators are held across layout changes, getBlockFromDict is called between two rounds of accessor checks and must leave the partition tables alone. '
+        '15% of the cases: kind swapper = a LayoutSwapper with C03\'s random groupings listed in any order: bufferSize >= every layout, raw transposes and a Grid with arrays of exactly bufferSize elements along a walk, every accessor after every step; '
         'case 0 = complete sweep of Layout for all extents n in 1..40 and process counts p in 1..n '
         '(every rank coordinate); other cases = the C01 generator (shape, process grid, orderings, '
         'dtype, transposes) run on P simulated ranks: every rank reports its partition tables, a Grid '
